@@ -167,6 +167,15 @@ func genCborEnc(tier string, seed uint64) {
 	for i := 0; i < nf; i++ {
 		emit("cborenc f%016x", randFloatBits(r))
 	}
+	// the same multi-byte tag again and again with wide heads and floats between the occurrences
+	for _, tg := range []uint64{24, 255, 256, 1000, 65535, 65536, 1 << 32, 1<<63 - 1} {
+		for _, mid := range []string{"f3ff8000000000000", "u70000", "i-70000", "s" + hexStr(300, 0x61), "u5", "x" + hexStr(256, 1), "f7ff8000000000001"} {
+			emit("cborenc [3,t%d.%s,t%d.%s,t%d.u1,]", tg, mid, tg, mid, tg)
+			emit("cborenc [-1,t%d.[1,%s,],%s,t%d.{1,s6b,t%d.%s,},]", tg, mid, mid, tg, tg, mid)
+			emit("cborenc {2,s61,t%d.%s,s62,t%d.%s,}", tg, mid, tg, mid)
+		}
+	}
+	emitShapes("cborenc", tier)
 	// 5. deep nesting
 	for _, d := range []int{10, 1000, 5000} {
 		emit("cborenc %s0%s", strings.Repeat("[1,", d), strings.Repeat(",]", d))
@@ -494,6 +503,7 @@ func genCborDec(tier string, seed uint64) {
 			emitDec(append(headBytes(major, n, 0), 0x01, 0x02))
 		}
 	}
+	emitShapes("cbordec", tier)
 	for _, d := range []int{100, 3000} {
 		emitDec(append([]byte(strings.Repeat("\x81", d)), 0x00))
 		emitDec(append(append([]byte(strings.Repeat("\x9f", d)), 0x00), []byte(strings.Repeat("\xff", d))...))
